@@ -57,7 +57,16 @@ Definition check_export_count (en : env) (rg : registry) (n_elements n_isotopes 
    && Z.eqb (Z.of_nat (List.length en)) (n_elements + n_isotopes))%bool.
 
 (* ---- lookups ---------------------------------------------------------------------------------- *)
-Inductive arg := AStr (s : string) | AInt (z : Z) | ARef (s : sref).
+(* AOther s: an object of any other type whose str() is s (the harness records str(obj)) *)
+Inductive arg := AStr (s : string) | AInt (z : Z) | ARef (s : sref) | AOther (s : string).
+(* the `number` argument: absent/None, an int, or any other object given by its truth value and str() *)
+Inductive numarg := NNone | NInt (z : Z) | NOther (truth : bool) (s : string).
+Definition num_core (n : numarg) : option string :=
+  match n with
+  | NNone => None
+  | NInt z => option_map zstr (truthy (Some z))
+  | NOther t s => if t then Some s else None
+  end.
 Inductive expect := EAttr (attr : string)   (* returned the object bound to this module attribute *)
                   | ESelf                   (* returned the argument object itself *)
                   | EErr.                   (* raised ValueError *)
@@ -67,6 +76,7 @@ Definition arg_value (en : env) (a : arg) : option value :=
   | AStr s => Some (VStr s)
   | AInt z => Some (VInt z)
   | ARef s => option_map VSpecies (resolve en s)
+  | AOther s => Some (VOther s)
   end.
 
 Definition expect_matches (en : env) (v : value) (got : result species) (ex : expect) : bool :=
@@ -85,12 +95,17 @@ Definition check_lookup_element (en : env) (ixe : index element) (a : arg) (ex :
   end.
 
 Definition check_lookup_isotope (en : env) (ixe : index element) (ixi : index isotope)
-           (a : arg) (number : option Z) (ex : expect) : bool :=
+           (a : arg) (number : numarg) (ex : expect) : bool :=
   match arg_value en a with
   | None => false
   | Some v =>
-      expect_matches en v (match lookup_isotope_ix ixe ixi v number with Ok i => Ok (SI i) | ErrValue => ErrValue end) ex
+      expect_matches en v (match lookup_isotope_core ixe ixi v (num_core number) with
+                           | Ok i => Ok (SI i) | ErrValue => ErrValue end) ex
   end.
+
+(* repr(obj) / str(obj) of an exported or fresh object *)
+Definition check_repr (en : env) (s : sref) (text : string) : bool :=
+  match resolve en s with Some o => String.eqb (py_str (VSpecies o)) text | None => false end.
 
 (* ---- == / != / hash ------------------------------------------------------------------------------ *)
 (* [hash_equal] is whether hash(a) == hash(b) held in the implementation *)
@@ -103,9 +118,9 @@ Definition check_eq (en : env) (a b : sref) (eq ne hash_equal : bool) : bool :=
   end.
 
 (* ---- lines --------------------------------------------------------------------------------------- *)
-Inductive lref := LRef (s : sref) (charge : Z) (u l : tval).
+Inductive lref := LRef (s : sref) (charge : Z) (tr : list tval).
 Definition resolve_line (en : env) (x : lref) : option (result line) :=
-  match x with LRef s c u l => option_map (fun o => new_line o c u l) (resolve en s) end.
+  match x with LRef s c tr => option_map (fun o => new_line o c tr) (resolve en s) end.
 
 (* constructor outcome: true = a Line was built, false = ValueError *)
 Definition check_line_new (en : env) (x : lref) (built : bool) : bool :=
@@ -122,7 +137,13 @@ Definition check_line_eq (en : env) (a b : lref) (eq ne hash_equal : bool) : boo
   | _, _ => false
   end.
 
-Definition check_encode_transition (u l : tval) (s : string) : bool := String.eqb (encode_transition u l) s.
+(* expected: Some s = returned s, None = ValueError *)
+Definition check_encode_transition (tr : list tval) (want : option string) : bool :=
+  match encode_transition tr, want with
+  | Ok s, Some s' => String.eqb s s'
+  | ErrValue, None => true
+  | _, _ => false
+  end.
 Definition check_valid_charge (en : env) (s : sref) (c : Z) (b : bool) : bool :=
   match resolve en s with Some o => Bool.eqb (valid_charge o c) b | None => false end.
 
@@ -138,37 +159,35 @@ Definition resolve_key (en : env) (k : kref) : option pykey :=
   | KL l => match resolve_line en l with Some (Ok x) => Some (PKL x) | _ => None end
   end.
 
-Fixpoint resolve_ops (en : env) (ops : list (kref * Z)) : option (list (pykey * Z)) :=
-  match ops with
-  | [] => Some []
-  | (k, v) :: t => match resolve_key en k, resolve_ops en t with
-                   | Some k', Some t' => Some ((k', v) :: t') | _, _ => None end
-  end.
-
 Definition optz_eqb (a b : option Z) : bool :=
   match a, b with Some x, Some y => Z.eqb x y | None, None => true | _, _ => false end.
 
-(* run d[k] = v for every op, then compare len(d) and d.get(q) for every query.
-   The dict model is instantiated with the constant hash (every hash function that respects the
-   hash key is allowed by the theorems; the constant one makes every slot comparison fall through to
-   ==, so an implementation whose __hash__ disagrees with its __eq__ shows up as a difference). *)
-Fixpoint check_queries (en : env) (d : list (pykey * Z)) (qs : list (kref * option Z)) : bool :=
-  match qs with
+(* one live dict driven through a history: d[k] = v, d.pop(k, None), d.get(k) (with the value the
+   implementation returned), len(d) (likewise).  The dict model is instantiated with the constant hash
+   (every hash function that respects the hash key is allowed by the theorems; the constant one makes
+   every slot comparison fall through to ==, so an implementation whose __hash__ disagrees with its
+   __eq__ shows up as a difference). *)
+Inductive dop := DSet (k : kref) (v : Z) | DDel (k : kref) | DGet (k : kref) (got : option Z) | DLen (n : Z).
+
+Fixpoint run_dict (en : env) (d : list (pykey * Z)) (ops : list dop) : bool :=
+  match ops with
   | [] => true
-  | (q, want) :: t =>
-      match resolve_key en q with
-      | Some k => (optz_eqb (dict_get (fun _ => 0) (fun _ _ => false) pk_eq d k) want && check_queries en d t)%bool
-      | None => false
-      end
+  | DSet k v :: t =>
+      match resolve_key en k with
+      | Some k' => run_dict en (dict_set (fun _ => 0) (fun _ _ => false) pk_eq d k' v) t
+      | None => false end
+  | DDel k :: t =>
+      match resolve_key en k with
+      | Some k' => run_dict en (dict_del (fun _ => 0) (fun _ _ => false) pk_eq d k') t
+      | None => false end
+  | DGet k got :: t =>
+      match resolve_key en k with
+      | Some k' => (optz_eqb (dict_get (fun _ => 0) (fun _ _ => false) pk_eq d k') got && run_dict en d t)%bool
+      | None => false end
+  | DLen n :: t => (Z.eqb (Z.of_nat (List.length d)) n && run_dict en d t)%bool
   end.
 
-Definition check_dict (en : env) (ops : list (kref * Z)) (len : Z) (qs : list (kref * option Z)) : bool :=
-  match resolve_ops en ops with
-  | None => false
-  | Some ops' =>
-      let d := dict_run (fun _ => 0) (fun _ _ => false) pk_eq ops' in
-      (Z.eqb (Z.of_nat (List.length d)) len && check_queries en d qs)%bool
-  end.
+Definition check_dict (en : env) (ops : list dop) : bool := run_dict en [] ops.
 
 (* ---- the periodic table the Python side of the search uses must be the model's ---------------------- *)
 Fixpoint rows_eqb (a b : list (Z * string * string)) : bool :=
